@@ -82,11 +82,13 @@ func init() {
 	register(&Property{
 		ID: "C06",
 		Explanation: "Decides structural necessary conditions of behaviour-preserving minimization: GUARD(entry): minimize consults Grammar.Inputs so that entry states (referenced by index from generated Parse*/lookahead functions) stay apart. GUARD(final): the initial partition consults Tables.FinalStates (reaching `end` stops the parse, which no action signature records). FIELDCOV(minimize): the rule-class key is built from LHS, RuleLen (as popped by the parser), action, node type and flags; every Tables field that holds or is indexed by state numbers is rewritten on the merge path; new Tables fields must be classified; the refinement signature contains own partition, edge symbol and target partition. " +
-			"MUSTPASS(compile-order): minimize runs after conflict resolution and before Optimize. KEYCOPY: the interning containers that partition states by signature store a copy of the signature, never the caller's (reusable) slice. AGREE(memo-key): generated code identifies a lookahead by its entry state (kept apart), never by its final state (merged with other final states). SIGNATURE(lalr-cell): each element of a lookahead state's initial signature is the Lalr cell itself or ruleClass[cell], never a constant standing for a class of cells. LOCKSTEP(rule-copy): the action id that keeps rules with different default-cast behaviour apart is stored into the lalr copy of the rule (the one minimize keys on) whenever it is stored into the grammar copy (the one applyRule is generated from). Not decided: that Moore refinement yields a behaviourally equivalent automaton on all inputs.",
-		Rules: []string{"GUARD(entry)", "GUARD(final)", "FIELDCOV(minimize)", "MUSTPASS(compile-order)", "KEYCOPY", "LOCKSTEP(rule-copy)", "SIGNATURE(lalr-cell)", "AGREE(memo-key)", "GUARD(optimize-la)"},
+			"MUSTPASS(compile-order): minimize runs after conflict resolution and before Optimize. KEYCOPY: the interning containers that partition states by signature store a copy of the signature, never the caller's (reusable) slice. AGREE(memo-key): generated code identifies a lookahead by its entry state (kept apart), never by its final state (merged with other final states). SIGNATURE(lalr-cell): each element of a lookahead state's initial signature is the Lalr cell itself or ruleClass[cell], never a constant standing for a class of cells. LOCKSTEP(rule-copy): the action id that keeps rules with different default-cast behaviour apart is stored into the lalr copy of the rule (the one minimize keys on) whenever it is stored into the grammar copy (the one applyRule is generated from). Not decided: that Moore refinement yields a behaviourally equivalent automaton on all inputs. ACCESSOR(len): IntSliceSet.Len(), the convergence measure of the refinement loop, returns the counter Insert advances per new element. GUARD(final) also requires the protected set to hold the elements of Tables.FinalStates.",
+		Rules: []string{"GUARD(entry)", "GUARD(final)", "FIELDCOV(minimize)", "MUSTPASS(compile-order)", "KEYCOPY", "LOCKSTEP(rule-copy)", "SIGNATURE(lalr-cell)", "AGREE(memo-key)", "GUARD(optimize-la)", "ACCESSOR(len)"},
 		Run: func(c *Ctx) {
 			ruleENTRYGUARD(c)
 			ruleFINALGUARD(c)
+			ruleFINALELEMS(c)
+			ruleLENACCESSOR(c)
 			ruleMINIMIZE(c)
 			ruleCOMPILEORDER(c)
 			ruleKEYCOPY(c)
@@ -140,10 +142,11 @@ func init() {
 		ID: "C24",
 		Explanation: "Decides structural necessary conditions of 'shift-DFA scanners agree with the tables they pack': INTERVAL(bitpack): with field width W read from Pack (target*W, state*W), the accepted number of states K satisfies K*W <= 64, (K-1)*W < 2^W and K <= len(onEoi); actions < A encode as action*2+1 < 2^W; Scan decodes with mask 2^W-1, /W and /2. " +
 			"CONSTAGREE(ascii): the guard on the last symbol-map entry is <= the byte split (128) below which bytes are mapped individually. GUARD(nobacktrack): tables with checkpoints or several start states are rejected (the -1-cell decode and state 0 start are valid only then). GLOBALS: no package-level mutable state in shiftdfa. " +
-			"Not decided: equality of results on all inputs as such.",
-		Rules: []string{"INTERVAL(bitpack)", "CONSTAGREE(ascii)", "GUARD(nobacktrack)", "GLOBALS"},
+			"Not decided: equality of results on all inputs as such. CONSTAGREE(last-entry): the symbol Pack gives to all non-ASCII bytes is the Target of the last SymbolMap entry (the catch-all range), as lex.Tables documents.",
+		Rules: []string{"INTERVAL(bitpack)", "CONSTAGREE(ascii)", "GUARD(nobacktrack)", "GLOBALS", "CONSTAGREE(last-entry)"},
 		Run: func(c *Ctx) {
 			ruleSHIFTDFA(c)
+			ruleLASTENTRY(c)
 			rulePKGGLOBALS(c, "shiftdfa")
 		},
 	})
@@ -297,10 +300,11 @@ func init() {
 		ID: "C02",
 		Explanation: "Decides structural necessary conditions of 'listener events reproduce the derivation' on every case of every committed generated applyRule: STACKIDX: each stack reference stack[len(stack)-K] / stack[len(stack)-A:len(stack)-B] of case i lies inside the tmRuleLen[i] symbols of rule i (inside the prefix for mid-rule nonterminals), ranges are non-empty, fixTrailingWS gets exactly the whole right-hand side. " +
 			"GUARD(markerfree) and LOOPSHAPE(marker-transparent): state markers never count as symbols and never stop a scan of the right-hand side (HasTrailingNulls decides whether trailing whitespace is trimmed). VARIANT(trim-trailing-empty): all trailing empty symbols are trimmed from a node's range. SIBLING(list-recursion): every recursive list rule built by Expand is left-recursive unless the list is flagged right-recursive (elements are reported in source order). TYPESTATE(lookahead): the offset given to an empty node (p.next.offset) is read only while the lookahead is fetched, never after it was consumed by a shift. FIELDROLE(input): each branch on a flag of syntax.Input reads the flag its audited role names (node types are collected from non-Synthetic inputs; NoEoi is a different bool on the same record). " +
-			"Not decided: that the range is the right sub-range, post-order, node types; list expansion order.",
-		Rules: []string{"STACKIDX", "GUARD(markerfree)", "LOOPSHAPE(marker-transparent)", "VARIANT", "SIBLING(list-recursion)", "TYPESTATE(lookahead)", "FIELDROLE(input)"},
+			"Not decided: that the range is the right sub-range, post-order, node types; list expansion order. SOURCE(identity): every generated lexer's Init keeps the caller's string in l.source unmodified (reported ranges are offsets into the caller's text; a byte-order mark is skipped by moving the offset). LOOPSHAPE(marker-transparent) also rejects a marker test on one fixed position of a right-hand side outside a loop.",
+		Rules: []string{"STACKIDX", "GUARD(markerfree)", "LOOPSHAPE(marker-transparent)", "VARIANT", "SIBLING(list-recursion)", "TYPESTATE(lookahead)", "FIELDROLE(input)", "SOURCE(identity)"},
 		Run: func(c *Ctx) {
 			rulePEEK(c)
+			ruleSOURCEID(c)
 			ruleFIELDROLE(c)
 			ruleSTACKIDX(c)
 			ruleMARKERFREE(c)
@@ -340,11 +344,12 @@ func init() {
 	register(&Property{
 		ID: "C20",
 		Explanation: "Decides structural necessary conditions of 'parse events form a well-nested tree': VARIANT(flush-after-extend): in recoverFromError the error node is flushed only after its range was extended over pending invalid tokens (otherwise tokens inside the node are reported after it). VARIANT(trim-trailing-empty): every parse loop that trims trailing empty symbols does so in a loop (all of them), so a node never runs into following whitespace/comments that are still pending. " +
-			"STACKIDX: reported ranges are non-empty sub-ranges of the rule. Not decided: the tree builder, nesting under recovery in general. INITCOV: every field of Lexer/Parser/TokenStream that another method modifies is assigned on every path by Init (or by the first block of parse()), so no run state of an earlier input (pending tokens of a cancelled parse) reaches the next input's event stream; four audited exemptions. INITCOV: every field of Lexer/Parser/TokenStream that another method modifies is assigned on every path by Init (or by the first block of parse()), so no run state of an earlier input (pending tokens of a cancelled parse) reaches the next input's event stream; audited exemptions are listed in the rule. GUARD(root-adopts-all): builder.build() of each generated ast package either fails unless one node is left on the stack or adds the file node with an end offset beyond the input, so that every reported node (an empty node at the very end included) is in the tree.",
-		Rules: []string{"INITCOV", "VARIANT", "STACKIDX", "GUARD(root-adopts-all)"},
+			"STACKIDX: reported ranges are non-empty sub-ranges of the rule. Not decided: the tree builder, nesting under recovery in general. INITCOV: every field of Lexer/Parser/TokenStream that another method modifies is assigned on every path by Init (or by the first block of parse()), so no run state of an earlier input (pending tokens of a cancelled parse) reaches the next input's event stream; four audited exemptions. INITCOV: every field of Lexer/Parser/TokenStream that another method modifies is assigned on every path by Init (or by the first block of parse()), so no run state of an earlier input (pending tokens of a cancelled parse) reaches the next input's event stream; audited exemptions are listed in the rule. GUARD(root-adopts-all): builder.build() of each generated ast package either fails unless one node is left on the stack or adds the file node with an end offset beyond the input, so that every reported node (an empty node at the very end included) is in the tree. GUARD(sibling-boundary) as in C21.",
+		Rules: []string{"INITCOV", "VARIANT", "STACKIDX", "GUARD(root-adopts-all)", "GUARD(sibling-boundary)"},
 		Run: func(c *Ctx) {
 			ruleINITCOV(c, "TokenStream", "Lexer", "Parser")
 			ruleROOTADOPT(c)
+			ruleSIBLINGBOUNDARY(c)
 			ruleRECOVERY(c)
 			ruleSTACKIDX(c)
 		},
@@ -409,11 +414,13 @@ func init() {
 	register(&Property{
 		ID: "C21",
 		Explanation: "Decides, for the shipped typed ASTs (js, tm; parsers/test/ast is a stale directory that test.tm no longer generates), that no accessor's type assertion can fail and the node factory is total: EXHAUST: the factory switch has a case for every NodeType constant. IMPL: for every accessor, every node type admitted by the last selector of its navigation chain (categories expanded through the generated category lists) and NilNode implement the asserted interface (go/types.Implements), and struct wrappers T{child} are used only with single-type selectors equal to T. " +
-			"TMPL(step-scope): the template emits each chain step's selector name from the step itself. Not decided: other grammars (type inference in syntax/types.go is algorithmic), 'every child is reachable through an accessor'. PAIR(save-restore): typeCollector.nontermPhrase reads c.referrer after the descent only behind the store that restores it (the low-link of a cycle reaches the entry nonterminal, whose fields become lists). FIELDCOV(minimize): every component of the rule-class key, node type and flags included, is filled on every path (states reporting different node types are not merged). SIBLING(tarjan-update): the low-link update after the recursive descent of the type collector's embedded Tarjan propagates lowLink[child], as util/graph's does.",
-		Rules: []string{"EXHAUST", "IMPL", "TMPL(step-scope)", "FIELDCOV(minimize)", "PAIR(save-restore)", "SIBLING(tarjan-update)"},
+			"TMPL(step-scope): the template emits each chain step's selector name from the step itself. Not decided: other grammars (type inference in syntax/types.go is algorithmic), 'every child is reachable through an accessor'. PAIR(save-restore): typeCollector.nontermPhrase reads c.referrer after the descent only behind the store that restores it (the low-link of a cycle reaches the entry nonterminal, whose fields become lists). FIELDCOV(minimize): every component of the rule-class key, node type and flags included, is filled on every path (states reporting different node types are not merged). SIBLING(tarjan-update): the low-link update after the recursive descent of the type collector's embedded Tarjan propagates lowLink[child], as util/graph's does. INTERVAL(bitset-size): the size expression of the generated selector.OneOf bit set, evaluated for every max in [0, 8*bits], exceeds max/bits. GUARD(sibling-boundary): addNode treats a stacked node as a later sibling iff its start offset >= the new node's end offset.",
+		Rules: []string{"EXHAUST", "IMPL", "TMPL(step-scope)", "FIELDCOV(minimize)", "PAIR(save-restore)", "SIBLING(tarjan-update)", "INTERVAL(bitset-size)", "GUARD(sibling-boundary)"},
 		Run: func(c *Ctx) {
 			ruleSAVERESTORE(c, "syntax", "compiler", "gen", "grammar")
 			ruleTARJANSIB(c)
+			ruleSIBLINGBOUNDARY(c)
+			ruleBITSETSIZE(c)
 			ruleMINIMIZE(c)
 			ruleTYPEDAST(c)
 			ruleTMPLSTEPSCOPE(c)
